@@ -17,7 +17,7 @@ RULE = ('roundtrip units: random lists of 0..8 (key,value) pairs, keys non-empty
         'through a handler behind Ombott.__call__. totality units: every string of length<=N over {a,=,&,%,+,2} fed to parse_qsl in '
         'all three of its output modes under a step budget, plus random junk incl. lone surrogates-free Unicode. Non-trivial = '
         'the pair list has a repeated key or a character that needs escaping; distinct = distinct encoded string.')
-REQUIRED = ['body_consumed_before_forms', 'roundtrips_query', 'roundtrips_forms', 'roundtrips_params', 'repeated_key_cases', 'list_values_seen',
+REQUIRED = ['query_replaced_after_a_first_read', 'body_consumed_before_forms', 'roundtrips_query', 'roundtrips_forms', 'roundtrips_params', 'repeated_key_cases', 'list_values_seen',
             'totality_strings', 'via_wsgi', 'chunked_forms']
 EXHAUSTIVE = {'quick': False, 'thorough': False,
               'quick_note': 'totality sweep is complete for all strings of length<=6 over {a,=,&,%,+,2}',
@@ -135,7 +135,7 @@ def roundtrip_unit(ctx, unit):
         wit = {'unit': {'kind': 'one', 'pairs': [list(p) for p in pairs], 'style': style}}
         if rep:
             ctx.count('repeated_key_cases')
-        mode = rng.choice(['query', 'forms', 'forms_chunked', 'both', 'wsgi'])
+        mode = rng.choice(['query', 'forms', 'forms_chunked', 'both', 'wsgi', 'rewritten'])
         ctx.case(('rt', enc, mode), nontrivial=nontriv)
         if i % 211 == 0:
             ctx.sample({'pairs': pairs, 'encoded': enc, 'read_through': mode})
@@ -151,6 +151,20 @@ def one_roundtrip(ctx, app, seen, rng, pairs, exp, enc, mode, wit):
         ok = _cmp(ctx, 'Request.query', rq.query, exp, wit)
         ctx.count('roundtrips_query')
         _cmp(ctx, 'Request.params', rq.params, exp, wit)
+        ctx.count('roundtrips_params')
+    elif mode == 'rewritten':
+        # an earlier query was read from the same request object, then QUERY_STRING was replaced (what a before_request hook may do)
+        first = gen_pairs(rng)
+        rq = ombott.Request(make_environ('GET', '/q', qs=encode(rng, first, 'plus')))
+        dict(rq.query), dict(rq.params), rq.query_string
+        rq['QUERY_STRING'] = enc
+        ctx.count('query_replaced_after_a_first_read')
+        if rq.query_string != enc:
+            ctx.violation('Request.query_string:stale-after-replacement', f'{rq.query_string!r} instead of {enc!r}', wit)
+        _cmp(ctx, 'Request.query(after replacement)', rq.query, exp, wit)
+        _cmp(ctx, 'Request.params(after replacement)', rq.params, exp, wit)
+        _cmp(ctx, 'Request.GET(after replacement)', rq.GET, exp, wit)
+        ctx.count('roundtrips_query')
         ctx.count('roundtrips_params')
     elif mode in ('forms', 'forms_chunked'):
         body = enc.encode('ascii')
@@ -329,5 +343,5 @@ def run_unit(ctx, unit):
             seen['forms'] = dict(rq.forms)
             seen['params'] = dict(rq.params)
             return 'ok'
-        for mode in ('query', 'forms', 'forms_chunked', 'both', 'wsgi'):
+        for mode in ('query', 'forms', 'forms_chunked', 'both', 'wsgi', 'rewritten'):
             one_roundtrip(ctx, app, seen, random.Random(1), pairs, exp, enc, mode, None)
